@@ -80,7 +80,7 @@ def random_name_simple(rng):
 class C13(Prop):
     id = "C13"
     lean_modules = ["PkgProofs.Props.C13"]
-    generated = ["NameValidRx", "NameTables"]
+    generated = ["NameValidRx", "NormalizedRx", "NameTables"]
     theorems = []
     rule = ("names = every string over the seven-class partition (lower-alnum, '-', '_', '.', upper, newline, other; "
             "representative drawn per position) up to length 5 (quick) / 7 (thorough), plus random longer names built "
